@@ -2,7 +2,7 @@
    indentation (any run of line feeds and blanks that starts with a line feed, in front of something that is neither),
    the keywords model, schema, type, relations and the schema version. *)
 From Coq Require Import Lia.
-From Verif Require Import Base.Str Base.Outcome Model.Ast Model.Token Gen.Keywords Model.Lexer Model.Parser
+From Verif Require Import Spec.DocDomain Base.Str Base.Outcome Model.Ast Model.Token Gen.Keywords Model.Lexer Model.Parser
   Proofs.ParserComplete Proofs.LexInversion Proofs.LexRender.
 
 (* a line break as the printer writes it: a line feed, then line feeds and blanks *)
@@ -54,8 +54,6 @@ Proof. split; [destruct rest as [|? [|? ?]]; vm_compute; reflexivity|split; [dis
 Lemma rec_define' rest : rec_at DEFINE (lit "define") (32 :: rest).
 Proof. split; [destruct rest as [|? [|? ?]]; vm_compute; reflexivity|split; [discriminate|reflexivity]]. Qed.
 
-(* the schema versions in use *)
-Definition std_version (v : str) : bool := str_eqb v (lit "1.0") || str_eqb v (lit "1.1") || str_eqb v (lit "1.2").
 (* end of input, or a line feed *)
 Definition nl_next (rest : str) : Prop := match rest with [] => True | c :: _ => c = 10 end.
 Lemma nl_next_delim rest : nl_next rest -> delim_next rest.
